@@ -331,10 +331,14 @@ class Executor:
 
     def _box_func(self, st, clo):
         # identity of a closure: definition site + the frame it closes over (a fresh function object per evaluation of the def/lambda)
-        site = 'clo_%s_L%d' % (clo.module, clo.node.lineno)
+        # (two closures with identical code and identical captured values are behaviourally identical)
+        import hashlib
+        site = 'clo_' + hashlib.sha1(ast.dump(clo.node).encode()).hexdigest()[:12] if isinstance(clo.node, ast.Lambda) else \
+               'clo_%s_%s' % (clo.module, getattr(clo.node, 'name', 'f'))
         cap = []
         if clo.fid is not None and clo.fid in st.frames and not isinstance(clo.node, ast.FunctionDef) or (clo.fid not in (None, 0)):
-            names = sorted({n.id for n in ast.walk(clo.node) if isinstance(n, ast.Name)})
+            params = {a.arg for a in clo.node.args.args + clo.node.args.kwonlyargs} if hasattr(clo.node, 'args') else set()
+            names = sorted({n.id for n in ast.walk(clo.node) if isinstance(n, ast.Name)} - params)
             for n in names:
                 if clo.fid in st.frames and n in st.frames[clo.fid]:
                     val = st.frames[clo.fid][n]
